@@ -95,26 +95,80 @@ def compare(m, r, S, tol=1e-9):
     if m["plaquettes"] is None:
         return diffs
     mp, rp = m["plaquettes"], r["plaquettes"]
+    # The property constrains the SET of plaquettes (each a cyclic sequence of directed edges), not the
+    # discovery order nor the dart a walk starts on: align the two lists by canonical rotation first.
+    def canon(p):
+        darts = list(zip(p["edges"], p["directions"]))
+        if not darts:
+            return (), 0
+        i = darts.index(min(darts))
+        return tuple(darts[i:] + darts[:i]), i
+    mkey = {}
+    for j, a in enumerate(mp):
+        mkey.setdefault(canon(a)[0], []).append(j)
+    rmap, rrot = {}, {}
+    missing = []
+    for i, b in enumerate(rp):
+        k, off_r = canon(b)
+        js = mkey.get(k)
+        if not js:
+            missing.append(i)
+            continue
+        j = js.pop(0)
+        rmap[i] = j
+        rrot[i] = (canon(mp[j])[1] - off_r) % max(1, len(b["edges"]))   # impl walk = model walk rotated left by rrot
+    unmatched_model = [j for js in mkey.values() for j in js]
     if len(mp) != len(rp):
         diffs.append(("n_plaquettes", f"model {len(mp)} impl {len(rp)}"))
-    for i, (a, b) in enumerate(zip(mp, rp)):
-        for k in ("vertices", "edges", "directions"):
-            if a[k] != b[k]:
-                diffs.append((f"plaquette[{i}].{k}", f"model {a[k]} impl {b[k]}"))
-                break
-        else:
-            c = centre_of(a, S)
-            if c is not None:
-                cf = np.array([float(c[0]), float(c[1])])
-                if not np.all(np.abs(cf - b["center"]) <= tol * (1 + np.abs(cf))):
-                    diffs.append((f"plaquette[{i}].center", f"model {cf} impl {b['center']}"))
-            if b["n_sides"] != len(a["edges"]):
-                diffs.append((f"plaquette[{i}].n_sides", ""))
-    if len(mp) == len(rp) and not diffs:
-        if m["ep"] != r["ep"]:
+    if missing or unmatched_model:
+        diffs.append(("plaquette_set", f"impl plaquettes not in model {missing[:3]} (e.g. {[list(zip(rp[i]['edges'], rp[i]['directions']))[:6] for i in missing[:1]]}); "
+                                        f"model plaquettes not in impl {unmatched_model[:3]}"))
+        return diffs
+    order_same = all(rmap[i] == i and rrot[i] == 0 for i in rmap)
+    for i, b in enumerate(rp):
+        a = mp[rmap[i]]
+        n = len(a["edges"])
+        rot = rrot[i]
+        if a["vertices"][rot:] + a["vertices"][:rot] != b["vertices"]:
+            diffs.append((f"plaquette[{i}].vertices", f"model {a['vertices']} (rotated by {rot}) impl {b['vertices']}"))
+            continue
+        c = centre_of(a, S)
+        if c is not None:
+            cf = np.array([float(c[0]), float(c[1])])
+            # the centre is computed from the unwrapped polygon starting at the stored position of the walk's FIRST
+            # vertex: a rotated walk may be unwrapped into a different periodic image, so compare modulo 1
+            # when the start differs (C01 says "centroid of that polygon"; the image is not constrained)
+            dv = cf - b["center"]
+            if rot != 0:
+                dv = dv - np.round(dv)
+            if not np.all(np.abs(dv) <= tol * (1 + np.abs(cf))):
+                diffs.append((f"plaquette[{i}].center", f"model {cf} impl {b['center']}"))
+        if b["n_sides"] != n:
+            diffs.append((f"plaquette[{i}].n_sides", ""))
+    if not diffs:
+        inv_map = lambda x: None if x is None else rmap.get(x, -1)
+        if [(inv_map(a), inv_map(b)) for a, b in r["ep"]] != m["ep"]:
             diffs.append(("edges.adjacent_plaquettes", ""))
-        if m["vp"] != r["vp"]:
-            diffs.append(("vertices.adjacent_plaquettes", ""))
-        if m["pnb"] != [p["adjacent"] for p in rp]:
-            diffs.append(("plaquette.adjacent_plaquettes", ""))
+        if m["vp"] is None:
+            diffs.append(("vertices.adjacent_plaquettes", "model IndexError"))
+        elif order_same:
+            if m["vp"] != r["vp"]:
+                diffs.append(("vertices.adjacent_plaquettes", ""))
+        else:
+            # slot order within a row follows the discovery order, which is not constrained: compare as multisets
+            for v, (rowm, rowr) in enumerate(zip(m["vp"], r["vp"])):
+                if len(rowm) != len(rowr) or sorted((x is None, x) for x in rowm) != sorted((inv_map(x) is None, inv_map(x)) for x in rowr):
+                    diffs.append(("vertices.adjacent_plaquettes", f"vertex {v}"))
+                    break
+            else:
+                if len(m["vp"]) != len(r["vp"]):
+                    diffs.append(("vertices.adjacent_plaquettes", "row count"))
+        for i, b in enumerate(rp):
+            a = m["pnb"][rmap[i]]
+            rot = rrot[i]
+            if a[rot:] + a[:rot] != [inv_map(x) for x in b["adjacent"]]:
+                diffs.append(("plaquette.adjacent_plaquettes", f"plaquette {i}"))
+                break
+    if not order_same and not diffs:
+        diffs_order = True   # noqa: F841  (order/rotation differences are reported separately by callers that care, e.g. C09)
     return diffs
